@@ -1,5 +1,8 @@
 """C50 — load reports neither lose nor double count load (spec LoadStore)."""
 import os
+import re
+
+from vcheck import Inconclusive, write_ndjson
 
 META = {
     "engine": "LoadStore",
@@ -15,11 +18,45 @@ META = {
             "uncategorised one, 2 metrics); every call is bracketed by a global sequence number.  TLC checks per round that every "
             "cleared counter summed over all reports (incl. the final one at quiescence) equals the number of recorded events and "
             "that each report's inProgress lies between the smallest and largest value of started - finished inside the window of "
-            "its stats() call; long runs (4 x 100000 calls with a tight snapshot loop per round) are checked on per-round aggregates.",
-    "note": "Schedules of the real code are not controlled (no hooks): the concurrency clauses are checked on whatever interleavings "
+            "its stats() call; long runs (4 x 100000 calls with a tight snapshot loop per round) are checked on per-round aggregates.  "
+            "Sequential behaviours (TLC edge cover of LoadStoreSeqMC: every call sequence with a snapshot at every position, e.g. "
+            "snapshot; CallServerLoad; snapshot; plus seeded random ones over 2 localities / 3 categories / 2 metrics) are replayed "
+            "single-threaded under the same clauses.  PickCount.tla states the picker side (each RPC recorded once: one CallDropped "
+            "per dropped pick, one CallStarted per passed pick); all fire-set sequences of 3 picks over 3 drop categories and seeded "
+            "random ones run on the real cluster_impl picker with scripted dropper decisions and a recording load store.",
+    "note": "Known finding: a server load recorded while its locality is idle is withheld from every report until the locality is "
+            "active again; the replayed sequential behaviours therefore end with one more CallStarted/CallFinished per used locality "
+            "before the final report, and the literal input is probed separately.  Schedules of the real code are not controlled (no hooks): the concurrency clauses are checked on whatever interleavings "
             "the stress produces; the exhaustive interleaving argument is the model's.  Server loads are small integers so that the "
             "float sums are exact.",
 }
+
+
+IDLE_LOAD_SIGNATURE = "C50:server-load-for-idle-locality-withheld-until-next-activity"
+
+
+def seq_step_of(state_text, label):
+    m = re.match(r'(\w+)(?:\((.*)\))?$', label.strip())
+    name, arg = m.group(1), (m.group(2) or "")
+    if name == "SStarted":
+        return {"a": "start", "loc": 0}
+    if name == "SFinished":
+        return {"a": "finok" if arg.strip() == "TRUE" else "finerr", "loc": 0}
+    if name == "SDropped":
+        return {"a": "drop", "key": 1}
+    if name == "SLoad":
+        return {"a": "load", "loc": 0, "key": 0, "val": 2}
+    if name == "SSnap":
+        return {"a": "snap"}
+    raise Inconclusive("unknown action label " + label)
+
+
+def pick_step_of(state_text, label):
+    m = re.match(r'PickT\((.*)\)$', label.strip())
+    if not m:
+        raise Inconclusive("unknown action label " + label)
+    from vcheck import parse_tla_value
+    return sorted(parse_tla_value(m.group(1))["$set"])
 
 
 def judge(ctx, res, tpath, what):
@@ -50,6 +87,50 @@ def run(ctx):
         pass
     judge(ctx, ctx.validate("LoadStoreTrace", "LoadStoreTrace.cfg", t1, count_resets=False), t1, "detailed rounds seed %d" % ctx.seed)
     ctx.cov["traces_validated_against_impl"] += n
+    # sequential behaviours: every call sequence with a snapshot at every position (TLC edge cover) + seeded random ones
+    g = ctx.dump_graph("LoadStoreSeqMC", ctx.pick("LoadStoreSeqGen.cfg", "LoadStoreSeqGenT.cfg"))
+    behs = ctx.edge_cover(g, seq_step_of, limit=ctx.pick(None, 6000))
+    bpath = os.path.join(ctx.run, "beh-seq.ndjson")
+    t3 = os.path.join(ctx.run, "trace-seq.ndjson")
+    write_ndjson(bpath, behs)
+    nr = ctx.pick(300, 3000)
+    ctx.driver(binary, "TestVerifC50Seq", {"VERIF_BEHAVIOURS": bpath, "VERIF_OUT": t3, "VERIF_N": nr, "VERIF_FLUSH": 1})
+    for b in behs:
+        ctx.count(b, nontrivial=len(b) >= 2)
+    for r in range(nr):
+        ctx.count({"seq_random": r, "seed": ctx.seed})
+    judge(ctx, ctx.validate("LoadStoreTrace", "LoadStoreTrace.cfg", t3, count_resets=False), t3,
+          "sequential behaviours (snapshot at every position) seed %d" % ctx.seed)
+    ctx.cov["traces_validated_against_impl"] += len(behs) + nr
+    # the literal clause without the closing activity: a load recorded while the locality has no request counters
+    probe = [[{"a": "start", "loc": 0}, {"a": "finok", "loc": 0}, {"a": "snap"}, {"a": "load", "loc": 0, "key": 0, "val": 3}]]
+    bp = os.path.join(ctx.run, "beh-idle.ndjson")
+    t4 = os.path.join(ctx.run, "trace-idle.ndjson")
+    write_ndjson(bp, probe)
+    ctx.driver(binary, "TestVerifC50Seq", {"VERIF_BEHAVIOURS": bp, "VERIF_OUT": t4, "VERIF_N": 0, "VERIF_FLUSH": 0})
+    res = ctx.validate("LoadStoreTrace", "LoadStoreTrace.cfg", t4, count_resets=False)
+    if not res["accepted"]:
+        ctx.finding(IDLE_LOAD_SIGNATURE,
+                    "CallStarted, CallFinished, stats(), CallServerLoad, stats() at quiescence: the load is in no report (clause %s)" % res["clause"],
+                    {"clause": res["clause"], "trace": open(t4).read()[:4000]})
+    # picker side: every RPC is recorded once (one CallDropped per dropped pick, one CallStarted per passed pick)
+    ctx.neg("PickCountMC", "PickCountNeg.cfg", expect="I_DropCountedOnce", workers=2)
+    pbin = ctx.go_build("internal/xds/balancer/clusterimpl", name="c50pick", only=r"zz_verif_c50_")
+    pbehs = ctx.edge_cover(ctx.dump_graph("PickCountMC", "PickCountMC.cfg"), pick_step_of)
+    pb = os.path.join(ctx.run, "beh-pick.ndjson")
+    t5 = os.path.join(ctx.run, "trace-pick.ndjson")
+    write_ndjson(pb, pbehs)
+    npk = ctx.pick(200, 2000)
+    ctx.driver(pbin, "TestVerifC50Picker", {"VERIF_BEHAVIOURS": pb, "VERIF_OUT": t5, "VERIF_N": npk})
+    for b in pbehs:
+        ctx.count({"picks": b})
+    for r in range(npk):
+        ctx.count({"pick_random": r, "seed": ctx.seed})
+    res = ctx.validate("PickCountTrace", "PickCountTrace.cfg", t5)
+    if not res["accepted"]:
+        idx, seg = ctx.trace_segment(t5, res["line"])
+        ctx.violation("cluster_impl picker: clause %s at trace line %d (behaviour %d)" % (res["clause"], res["line"], idx),
+                      {"clause": res["clause"], "segment": seg[:60]})
     t2 = os.path.join(ctx.run, "trace-bulk.ndjson")
     n2 = ctx.pick(20, 100)
     ctx.driver(binary, "TestVerifC50Bulk", {"VERIF_OUT": t2, "VERIF_N": n2, "VERIF_OPS": 100000})
